@@ -31,6 +31,11 @@ def instances(tier, seed):
             add(f"self:{sname}:{rp}:axis{a}", struct=sname, repl=rp, axes=[a], other=(0.35, 0.9, 0.6), mode='self', st_terms=True, charges=True,
                 pat_charges=(sname in ('S1', 'S5', 'S3')), joint_translate=('sym' if sname in ('S2', 'S4') else None),
                 symmetric=sname in ('S12', 'S8'), cost=30)
+    add("self:S16:weak-chiral6:mirror-decoy-untouched", struct='S16', repl='weak-chiral6->weak-chiral6', axes=[0], other=(0, 0.3, 0.6), mode='self', st_terms=True, charges=True, cost=30)
+    add("self:S5:pair->pair:differently-numbered-type-tables", struct='S5', repl='pair->pair', axes=[1], other=(0.3, 0, 0.6), mode='self', st_terms=True, charges=True,
+        search_type_offset=True, cost=40)
+    add("self:S1:chiral4->chiral4:differently-numbered-type-tables", struct='S1', repl='chiral4->chiral4', axes=[2], other=(0.3, 0.7, 0), mode='self', st_terms=True,
+        charges=True, search_type_offset=True, pat_charges=True, cost=30)
     add("self:S1:chiral4->chiral4:replace_all", struct='S1', repl='chiral4->chiral4', axes=[2], other=(0.35, 0.9, 0), mode='self-sites', replace_all=True, cost=20)
     aba = [('S6', 'single->F', 'singleF->H', 1), ('S1', 'chiral4->CHSP', 'chiralCHSP->chiral4', 2), ('S6', 'single->F', 'singleF->H', 0),
            ('S2', 'chiral4->CHSP', 'chiralCHSP->chiral4', 1)]
